@@ -21,8 +21,9 @@ func init() {
 			ruleV5(c)
 			ruleV6(c)
 			ruleV7(c)
+			ruleV8(c)
 		},
-		explanation: "Round-trip equality is a statement about values and is not decided.  Decided are the tables and shapes it needs: for each NRI/OCI conversion pair the From and To field maps are mutually inverse relations with agreeing field names, cover every field of the NRI message (frozen exceptions with reasons), and pass optional scalars as pointers through the optional constructors / Get() so that unset and zero stay distinct; every call site of an optional constructor passes a type the constructor's own type switch accepts (anything else silently becomes unset); LinuxResources.Copy stores no pointer, map or slice taken from the receiver into the result and copies every listed field; the event-mask parser and printer tables are inverse, total on the 13 events and disjoint from the parser's keywords; the env separator agrees across its four users.",
+		explanation: "Round-trip equality is a statement about values and is not decided.  Decided are the tables and shapes it needs: for each NRI/OCI conversion pair the From and To field maps are mutually inverse relations with agreeing field names, cover every field of the NRI message (frozen exceptions with reasons), and pass optional scalars as pointers through the optional constructors / Get() so that unset and zero stay distinct; every call site of an optional constructor passes a type the constructor's own type switch accepts (anything else silently becomes unset); LinuxResources.Copy stores no pointer, map or slice taken from the receiver into the result and copies every listed field; the event-mask parser and printer tables are inverse, total on the 13 events and disjoint from the parser's keywords; the env separator agrees across its four users. In conversion loops the append is made on every iteration.",
 		notDecided: []string{
 			"integer conversions at the edges (uint64 to int64)",
 			"the printer/parser loops themselves beyond the tables",
@@ -1163,4 +1164,95 @@ func addrOfParamFn(h *ssa.Function) bool {
 		}
 	}
 	return len(rets) > 0
+}
+
+// ---------------------------------------------------------------- V8 conversions copy every element
+
+// ruleV8: a conversion loop appends on every iteration.
+func ruleV8(c *Ctx) {
+	m := c.M
+	c.rule("V8", "every element converted: in the NRI<->OCI conversion functions of pkg/api, a loop over a list of the value being converted that appends to the result does so on every iteration (the append post-dominates the loop body's entry) — no element is skipped depending on its value", 4)
+	n := 0
+	for _, f := range m.funcsInPkg(pkgAPI) {
+		if f.Synthetic != "" || f.Parent() != nil {
+			continue
+		}
+		name := f.Name()
+		if !(name == "ToOCI" || strings.HasPrefix(name, "FromOCI") || strings.HasPrefix(name, "ToOCI")) {
+			continue
+		}
+		for _, b := range f.Blocks {
+			for _, in := range b.Instrs {
+				ap, ok := isBuiltinCall2(in, "append")
+				if !ok || len(ap.Call.Args) != 2 || !inLoop(b) {
+					continue
+				}
+				hdr := loopHeader(b)
+				if hdr == nil {
+					continue
+				}
+				body := loopBody(hdr)
+				// the loop ranges over a list (or map) of the value being converted
+				var ca AP
+				found := false
+				for bb := range body {
+					for _, i2 := range bb.Instrs {
+						var coll ssa.Value
+						switch x := i2.(type) {
+						case *ssa.IndexAddr:
+							if _, isPhi := x.Index.(*ssa.Phi); isPhi || bb != hdr {
+								coll = x.X
+							}
+						case *ssa.Index:
+							coll = x.X
+						case *ssa.Next:
+							if rg, ok := x.Iter.(*ssa.Range); ok {
+								coll = rg.X
+							}
+						}
+						if coll == nil {
+							continue
+						}
+						a := m.ap(coll)
+						if _, isParam := a.Root.(*ssa.Parameter); isParam && !found {
+							ca, found = a, true
+						}
+					}
+				}
+				if !found {
+					continue
+				}
+				// the loop body's entry: the successor of the header that stays in the loop
+				var entry *ssa.BasicBlock
+				for _, s := range hdr.Succs {
+					if body[s] && s != hdr {
+						entry = s
+					}
+				}
+				if entry == nil {
+					continue
+				}
+				n++
+				okP := entry == b || m.postDominates(b, entry)
+				// confirmed exception (one line of reason each)
+				if why, ok := map[string]string{
+					"FromOCIEnv": "the skipped case is `len(strings.SplitN(s, \"=\", 2)) == 0`, which SplitN with n=2 never returns",
+				}[funcKey(f)]; ok && !okP {
+					c.add("V8", fmt.Sprintf("%s/%s#%d", funcKey(f), ca.PathString(), n), ap.Pos(), Discharged, fmt.Sprintf("%s converts every element (confirmed exception: %s)", funcKey(f), why), "")
+					continue
+				}
+				c.ok("V8", fmt.Sprintf("%s/%s#%d", funcKey(f), ca.PathString(), n), ap.Pos(), okP, fmt.Sprintf("%s converts every element of %s", funcKey(f), ca.PathString()),
+					"the append of the converted element is skipped on some path through the loop body (a `continue`, or a condition on the element's value): such elements are missing after the conversion, so converting there and back loses them")
+			}
+		}
+	}
+}
+
+// isBuiltinCall2: like isBuiltinCall for an instruction.
+func isBuiltinCall2(in ssa.Instruction, name string) (*ssa.Call, bool) {
+	v, ok := in.(ssa.Value)
+	if !ok {
+		return nil, false
+	}
+	return isBuiltinCall(v, name)
 }
